@@ -176,8 +176,10 @@ func Random(rng *rand.Rand, t reflect.Type, depth int) reflect.Value {
 				x = value.Opaque("d", b)
 			case 7:
 				x = value.Ulong(rng.Uint64())
-			case 8: // (no raw buffer: "r" is not a signature of the grammar, so a raw nested in a structure cannot be described)
-				x = value.String("not-raw")
+			case 8: // a raw buffer
+				b := make([]byte, rng.Intn(9))
+				rng.Read(b)
+				x = value.Raw(b)
 			case 9:
 				x = value.Void()
 			case 10: // a tuple (is)
